@@ -1,0 +1,19 @@
+//go:build verif
+
+package standard
+
+// VerifPoisonEnabled turns the poison-on-free sanitiser on: a block that goes back to
+// the allocator, or a node that is reset for in-place reuse, is overwritten with 0xDD,
+// so a slice that is still referenced shows the corruption at once instead of whenever
+// the block happens to be refilled.
+var VerifPoisonEnabled bool
+
+func verifPoison(b []byte) {
+	if !VerifPoisonEnabled {
+		return
+	}
+	b = b[:cap(b)]
+	for i := range b {
+		b[i] = 0xDD
+	}
+}
